@@ -149,7 +149,8 @@ def expected_matches(pid, exp, got):
 
 def run(ctx):
     ctx.extract()
-    ctx.build_lean([m for m in ["GomlVerif.Props.C01", "GomlVerif.Props.C01src", c01pipe.PROP_MODULE]
+    from props import gocomp
+    ctx.build_lean([m for m in ["GomlVerif.Props.C01", "GomlVerif.Props.C01src", c01pipe.PROP_MODULE, gocomp.PROP_MODULE]
                     if os.path.exists(os.path.join(vlib.LEAN, m.replace(".", "/") + ".lean"))])
     if not ctx.build_harness():
         return ctx.finish("translation_validation", {"programs": 0, "disagreements_checked": 0, "samples": []}, [], "lake build")
@@ -330,6 +331,8 @@ def run(ctx):
         "generator_features": feats,
         "pipeline_composition": pipe_cov,
     }
+    # ---- the Go back end (go/compile.rs): model = implementation, Sem(ANF) vs Go.Sem(Go) on its stream
+    gocomp.add_to(ctx, "C01", cov)
     ctx.assumptions += [
         "SrcSem (lean/GomlVerif/Model/SrcSem.lean) on the real ast::File dumps is the source-level meaning whenever it decides (status not unsupported:…); it is validated, like Go.Sem, by reproducing the outputs recorded from real Go; it starts at ast::File, so CST->AST lowering is trusted here (C11/C12 own it)",
         "Sem (lean/GomlVerif/Model/Sem.lean) is the meaning of the IR stages (and the fallback reference); Go.Sem (Model/GoSem.lean) is our reading of the Go spec for the emitted subset, validated against the outputs recorded from real Go",
